@@ -33,7 +33,7 @@ def ddmin_list(items, still_fails, max_tests=400):
     return items
 
 
-def minimise_plan(plan, fails, list_fields=('ops', 'faults', 'kills', 'stalls'), simplifications=(), max_tests=600):
+def minimise_plan(plan, fails, list_fields=('ops', 'faults', 'faults_at', 'kills', 'stalls'), simplifications=(), max_tests=600):
     """fails(plan) -> bool (same violation class).  Returns the smallest plan found."""
     best = copy.deepcopy(plan)
     budget = [max_tests]
